@@ -268,6 +268,12 @@ class Kernel:
             v = tp.uniform(0.0, 5e-3)
         elif m == 4:          # bounded small jitter (C10): <= 2 ms
             v = tp.uniform(0.0, 2e-3)
+        elif m == 5:          # loaded machine: every third wake-up is late
+            if tp.draw(3):    # by tens to hundreds of milliseconds
+                v = tp.uniform(0.0, 200e-6)
+            else:
+                v = tp.uniform(0.02, 0.3)
+                self.faults['F1-latency-big'] += 1
         else:
             r = tp.draw(100)
             if r < 50:
